@@ -145,23 +145,54 @@ def r_C03bc(root):
     return inst, out
 def r_C02ab(root):
     out = []; inst = 0
-    up = find(load(root, L), "TextXVisitor.visit_textx_rule._update_attr_multiplicities"); inst += 2
-    oc = next((s for s in up.body if isinstance(s, ast.If) and "OrderedChoice" in ast.unparse(s.test)), None)
-    if oc is None: raise AnalysisError("ordered-choice case not found")
+    up = find(load(root, L), "TextXVisitor.visit_textx_rule._update_attr_multiplicities")
+    W = "_update_attr_multiplicities"
     param = up.args.args[1].arg
-    loop = next(s for s in oc.body if isinstance(s, ast.For))
-    rc = next(c for c in calls(loop) if callee_name(c) == "_update_attr_multiplicities")
-    arg = rc.args[1]
-    # inflow: the set passed down must be built from the caller's set
-    defs_ = [s for s in loop.body if isinstance(s, ast.Assign) and isinstance(arg, ast.Name) and ast.unparse(s.targets[0]) == arg.id]
-    src = defs_[-1].value if defs_ else arg
-    inflow = param in {x.id for x in ast.walk(src) if isinstance(x, ast.Name)}
-    # outflow: after the loop the caller's set is updated from the branch sets
-    after = oc.body[oc.body.index(loop) + 1:]
-    outflow = any((callee_name(c) == "update" and ast.unparse(c.func.value) == param) for s in after for c in calls(s)) or any(isinstance(s, ast.AugAssign) and ast.unparse(s.target) == param for s in after) or \
-              any(callee_name(c) in ("update", "add") and ast.unparse(c.func.value) == param for c in calls(loop))
-    if not inflow: out.append(Finding("C02", "C02.a", L, "_update_attr_multiplicities", " ".join(ast.unparse(loop).split())[:90], "assignments made before a choice are not visible inside its alternatives", witness="a=INT (a=INT | b=INT)"))
-    if not outflow: out.append(Finding("C02", "C02.a", L, "_update_attr_multiplicities", " ".join(ast.unparse(loop).split())[:90], "assignments made inside a choice alternative are not visible to the rest of the sequence", witness="(a=INT | b=INT) a=INT"))
+    fi = sem.info(up); cfg = fi.cfg; rd = fi.rd
+    rec = [c for c in calls(up, own=True) if callee_name(c) == up.name]
+    if len(rec) < 2: raise AnalysisError("expected the choice and the sequence recursion of _update_attr_multiplicities, found %d call(s)" % len(rec))
+    def is_original(name_node, at):
+        """the name denotes the very set object the caller passed in (only the parameter definition reaches)"""
+        n = fi.node_of(at); ds = rd.defs_of(n, name_node.id)
+        return name_node.id == param and ds and all(cfg.nodes[d].kind == "entry" for d in ds)
+    def merges_back(copy_name, after_call):
+        """after the call, some statement updates the ORIGINAL accumulator from the copy (directly or through a list the copy was appended to)"""
+        carriers = {copy_name}
+        for n in own_nodes(up):
+            if isinstance(n, ast.Call) and isinstance(n.func, ast.Attribute) and n.func.attr in ("append", "add") and any(isinstance(a, ast.Name) and a.id == copy_name for a in n.args) and isinstance(n.func.value, ast.Name):
+                carriers.add(n.func.value.id)
+        for n in own_nodes(up):
+            tgt = None; srcs = []
+            if isinstance(n, ast.Call) and isinstance(n.func, ast.Attribute) and n.func.attr in ("update", "__ior__") and isinstance(n.func.value, ast.Name): tgt, srcs = n.func.value, n.args
+            elif isinstance(n, ast.AugAssign) and isinstance(n.op, ast.BitOr) and isinstance(n.target, ast.Name): tgt, srcs = n.target, [n.value]
+            if tgt is None: continue
+            if not any(isinstance(x, ast.Name) and x.id in carriers for a in srcs for x in ast.walk(a)): continue
+            st = stmt_of(n)
+            if tgt.id == param and is_original(ast.Name(id=param), st): return True
+        return False
+    for c in rec:
+        inst += 1
+        if len(c.args) < 2 or not isinstance(c.args[1], ast.Name): raise AnalysisError("accumulator argument of the recursion is not a plain name: " + ast.unparse(c))
+        S = c.args[1]; n = fi.node_of(c); ds = rd.defs_of(n, S.id)
+        okc = True
+        for d in ds:
+            dn = cfg.nodes[d]
+            if dn.kind == "entry" and S.id == param: continue                      # the caller's own set: nothing to check
+            a = dn.ast
+            if not (isinstance(a, ast.Assign) and len(a.targets) == 1 and isinstance(a.targets[0], ast.Name)): raise AnalysisError("unsupported definition of the accumulator argument: " + ast.unparse(a)[:80])
+            derived = param in {x.id for x in ast.walk(a.value) if isinstance(x, ast.Name)}
+            if not derived:
+                okc = False; out.append(Finding("C02", "C02.a", L, W, " ".join(ast.unparse(a).split()) + "; " + ast.unparse(c), "assignments made earlier in the enclosing sequence are not visible inside this sub-expression (a fresh set is passed down)", witness="a=INT (a=INT | b=INT)"))
+            if S.id == param or not merges_back(S.id, c):
+                okc = False; out.append(Finding("C02", "C02.a", L, W, " ".join(ast.unparse(a).split()) + "; " + ast.unparse(c), "assignments made inside this sub-expression are recorded in a copy that is never merged back: the rest of the enclosing sequence does not see them", witness="(a=INT | b=INT) a=INT   /   ('x' a=INT)? a=INT"))
+        ob("C02", "C02.a", L, W, ast.unparse(c), okc)
+    # the accumulator is consulted and extended at an assignment
+    inst += 1
+    adds = [n for n in calls(up, own=True) if isinstance(n.func, ast.Attribute) and n.func.attr == "add" and isinstance(n.func.value, ast.Name) and n.func.value.id == param]
+    tests = [n for n in own_nodes(up) if isinstance(n, ast.Compare) and isinstance(n.ops[0], ast.In) and isinstance(n.comparators[0], ast.Name) and n.comparators[0].id == param]
+    if not adds or not tests:
+        out.append(Finding("C02", "C02.a", L, W, "in %s / %s.add(...)" % (param, param), "assignments are not %s the set of attributes seen so far" % ("recorded in" if not adds else "compared with")))
+    ob("C02", "C02.a", L, W, "membership test and add on the accumulator", bool(adds and tests))
     # b: repetition promotes, priority table, ?= in repetition rejected
     inst += 3
     src_up = ast.unparse(up)
